@@ -159,6 +159,8 @@ func copyFiles(f map[string]string) map[string]string {
 func applyOp(files map[string]string, i int, op string, lvl int) map[string]string {
 	o := copyFiles(files)
 	switch op {
+	case "publish":
+		return map[string]string{}
 	case "modify":
 		o["src/a.c"] = fmt.Sprintf("A-modified-by-%d-%d", lvl, i)
 	case "delete":
@@ -228,6 +230,9 @@ func buildLayout(sc *Scn, runDirPrefix string) intoto.Layout {
 				up += "/"
 			}
 			s.ExpectedMaterials = append([][]string{{"DISALLOW", "STAMP.TXT"}, {"DISALLOW", up + "STAMP.TXT"}, {"disallow", "Stamp.Txt"}}, s.ExpectedMaterials...)
+		}
+		if st.Op == "publish" {
+			s.ExpectedProducts = [][]string{{"DISALLOW", "*"}}
 		}
 		if sc.Defect == "rule-less-first-step-later-step-violates" {
 			if i == 0 {
@@ -690,12 +695,12 @@ var defects = map[string][]string{
 		"alter-pubkeys", "drop-signature", "corrupt-signature", "dup-signature", "reorder-signatures", "forged-keyid", "extra-foreign-signature",
 		"verifier-plus-one", "verifier-minus-one", "verifier-empty", "verifier-nil-map", "signed-by-others", "link-instead-of-layout",
 		"alter-step-unknown-member", "alter-step-drop-threshold", "alter-inspection-unknown-member", "alter-key-unknown-member",
-		"alter-dsse-payload-type-case", "alter-dsse-payload-type-params", "alter-signed-repeated-keys-member", "alter-signed-repeated-readme-member",
+		"alter-dsse-payload-type-case", "alter-dsse-payload-type-params", "alter-signed-repeated-keys-member", "alter-signed-repeated-readme-member", "alter-key-add-private-part",
 		"ca-root-pem-public-key-as-certificate", "ca-root-unparsable", "ca-root-public-key-only", "ca-intermediate-unparsable", "ca-root-valid-unused",
 		"dup-signature-missing-key", "keyid-collision-history",
 		"case-variant-member-evil-first-dsse", "case-variant-member-evil-last-dsse", "case-variant-member-evil-first-legacy", "case-variant-member-evil-last-legacy",
 		"verifier-key-malformed-legacy", "verifier-key-malformed-dsse", "alter-payload-strip-sig-padding", "verifier-key-cert-only-forged"},
-	"c05": {"four-links-two-groups", "rule-less-first-step-later-step-violates", "disagree-extra-product-0", "disagree-extra-product-1", "extra-disagreeing-link-uppercase-keyid", "extra-agreeing-link-uppercase-keyid",
+	"c05": {"threshold1-disagree-behind-140-uncounted-links", "last-step-without-products", "four-links-two-groups", "rule-less-first-step-later-step-violates", "disagree-extra-product-0", "disagree-extra-product-1", "extra-disagreeing-link-uppercase-keyid", "extra-agreeing-link-uppercase-keyid",
 		"required-link-missing", "required-link-unreadable", "none", "disagree-product-digest", "disagree-product-path", "disagree-material-digest", "disagree-algorithm", "disagree-algorithm-material",
 		"junk-uncounted-badsig", "junk-uncounted-unauthorised", "extra-agreeing-link", "byproducts-differ",
 		"threshold1-disagree-product-digest", "threshold1-disagree-algorithm", "threshold1-agree",
@@ -866,6 +871,12 @@ func genScenario(r *lib.Rng, focus string, idx int) *Scn {
 		if d == "four-links-two-groups" {
 			fourLinks(sc, i)
 		}
+		if d == "last-step-without-products" {
+			// the last step reports NO products (a publishing step; its rules forbid any): the summary carries exactly that
+			sc.Steps = append(sc.Steps, StepSpec{Name: "publish", Keys: []string{pool[0]}, Threshold: 1, Signers: []string{pool[0]}, Op: "publish"})
+			sc.Insps, sc.ExpectLog = nil, nil
+			sc.Entry = "plain"
+		}
 		if d == "rule-less-first-step-later-step-violates" {
 			// the first step carries no artifact rules at all (nothing to check for it); the rules of the SECOND step forbid
 			// what it produced: every item's rules are evaluated, whatever the items before it look like
@@ -941,6 +952,7 @@ func genScenario(r *lib.Rng, focus string, idx int) *Scn {
 			}
 		}
 		switch d {
+		case "last-step-without-products":
 		case "none", "junk-uncounted-badsig", "junk-uncounted-unauthorised", "extra-agreeing-link", "byproducts-differ", "threshold1-agree", "permissive-none", "extra-agreeing-link-uppercase-keyid",
 			"insp-named-like-last-step", "insp-named-like-first-step", "permissive-unclean-paths",
 			"permissive-sub-beside-link-agree", "permissive-twin-sublayouts-agree":
@@ -1671,7 +1683,7 @@ func materialise(sc *Scn, root string, r *lib.Rng) *world {
 
 // alterations of the layout FILE that the strict loader may refuse outright: refusing the file is one way of not
 // enforcing it; if it loads, verification must reject it like any other alteration of signed content
-var loadMayFail = map[string]bool{"alter-signed-repeated-keys-member": true, "alter-signed-repeated-readme-member": true, "alter-step-unknown-member": true, "alter-step-drop-threshold": true, "alter-inspection-unknown-member": true,
+var loadMayFail = map[string]bool{"alter-key-add-private-part": true, "alter-signed-repeated-keys-member": true, "alter-signed-repeated-readme-member": true, "alter-step-unknown-member": true, "alter-step-drop-threshold": true, "alter-inspection-unknown-member": true,
 	"alter-key-unknown-member": true, "alter-dsse-payload-type-case": true, "alter-dsse-payload-type-params": true}
 
 func stepIndex(sc *Scn) int { i, _ := strconv.Atoi(strings.Split(sc.DefectArg, ":")[0]); return i }
@@ -1753,6 +1765,27 @@ func applyLinkDefects(sc *Scn, w *world, r *lib.Rng) {
 	anyKey := func(m map[string]intoto.HashObj) string {
 		ks := lib.SortedKeys(m)
 		return ks[len(ks)-1]
+	}
+	if sc.Defect == "threshold1-disagree-behind-140-uncounted-links" {
+		// the second counted link disagrees; between the two counted files (in name order) lie 140 link files of keys the
+		// layout does not know (never counted): every link of an authorised functionary is still evidence
+		resign(func(l *intoto.Link) { l.Products[anyKey(l.Products)] = hobj("something else") })
+		a, b := pk(st.Signers[0]).Pub.KeyID[:8], pk(st.Signers[1]).Pub.KeyID[:8]
+		if a > b {
+			a, b = b, a
+		}
+		lo, _ := strconv.ParseUint(a, 16, 64)
+		hi, _ := strconv.ParseUint(b, 16, 64)
+		first := filepath.Join(w.linkDir, linkFile(st.Name, pk(st.Signers[0]).Pub.KeyID))
+		raw, err := os.ReadFile(first)
+		must(err)
+		for k := uint64(1); k <= 140 && lo+k < hi; k++ {
+			short := fmt.Sprintf("%08x", lo+k)
+			fake := short + strings.Repeat("0", 56)
+			junk := strings.ReplaceAll(string(raw), pk(st.Signers[0]).Pub.KeyID, fake)
+			must(os.WriteFile(filepath.Join(w.linkDir, fmt.Sprintf(intoto.LinkNameFormat, st.Name, fake)), []byte(junk), 0o644))
+		}
+		return
 	}
 	if strings.HasPrefix(sc.Defect, "disagree-extra-product-") {
 		// one of the counted links reports everything the other reports AND one more product (a strict superset)
@@ -2018,6 +2051,14 @@ func applyLayoutDefects(sc *Scn, w *world, r *lib.Rng) {
 				ins[0].(map[string]interface{})["timeout"] = 5.0
 			} else {
 				firstStep(pl)["approved_by"] = "nobody"
+			}
+		})
+	case "alter-key-add-private-part":
+		// a key of the layout gains a private part after signing (every field of the signed content is covered)
+		alter(func(pl map[string]interface{}) {
+			for _, k := range pl["keys"].(map[string]interface{}) {
+				k.(map[string]interface{})["keyval"].(map[string]interface{})["private"] = "added after signing"
+				break
 			}
 		})
 	case "alter-key-unknown-member":
